@@ -74,13 +74,14 @@ def plan(tier, seed, complete=False):
     else:
         from vf.prng import R, mix
 
-        idx = R(mix("C17", seed)).sample(len(pc), 1100)
+        # the lattice is small (about 4 400 cases, 16 s on 16 cores): the quick tier enumerates it completely too
+        idx = list(range(len(pc)))
         settings = ["S:all"]
     # settings are split by rule so that shards balance
     return {
         "items": [f"E:{i}" for i in idx] + [f"S:{k}" for k in range(46)],
         "zones": {"precedence lattice": {"universe": len(pc), "run": len(idx)}, "settings": {"rules": 46}},
-        "exhaustive": bool(complete or tier == "thorough"),
+        "exhaustive": True,
         "rule": "precedence: every {unset,true,false} assignment to the 4 layers x {none,-e,-d} x naming {id, alias...} x 2 rules x 3 file formats, "
         "checked against the executable precedence model through `plugins list` and a probe scan; settings: every configuration item of every rule x "
         "candidate invalid values x {lenient, strict}; distinct = distinct (rule, layer pattern) / (rule, item, value class)",
